@@ -32,7 +32,7 @@ RULE = (
     "would create a canary file if evaluated; (ii) corpus programs (README-style scripts, stdlib-flavoured Python) mutated by line deletion/duplication/"
     "indent shifts/token swaps, kept only if ast.parse accepts them; (iii) random text/bytes decoded as UTF-8 (surrogateescape and replace), plus an atheris "
     "campaign when available. Each case runs in a supervised child: sys.addaudithook armed around parse/emit, canary check, exception type check, soft "
-    "RLIMIT_CPU advanced per case (10 s), peak-memory growth per case <= 300 MB, module-state fingerprint; one hostile case in eight is an amplification history (seed constant + k <= 40 self-amplifying re-assignments: x = x * x, x = x ** 64, s = s + s, nested power towers left and right). Non-trivial = the input reached _eval_const/_to_c_expr (got past the regex dispatch). "
+    "os.environ / os.getcwd replaced by recording stand-ins while a script is transpiled (any look-up is an environment access), RLIMIT_CPU advanced per case (10 s), peak-memory growth per case <= 300 MB, module-state fingerprint; one hostile case in eight is an amplification history (seed constant + k <= 40 self-amplifying re-assignments: x = x * x, x = x ** 64, s = s + s, nested power towers left and right). Non-trivial = the input reached _eval_const/_to_c_expr (got past the regex dispatch). "
     "distinct = distinct text."
 )
 ASSUMPTIONS = [
@@ -55,6 +55,7 @@ def hostile_pool(canary):
         "[0]*10**9", "max(9**9**9, 1)", "abs(-(9**9**9))", "len('a'*10**10)", "1 if 9**9**9 else 2", "f'{9**9**9}'", "str(9**99999)",
         "x.__class__", "globals()", "locals()", "vars()", "dir()", "input()", "breakpoint()", "exit()", "quit()", "help()", "__file__", "__name__",
         "[1, 0, 1e400]", "[255, -1e999]", "[1, float('nan')]", "[1, 2, 3, 4, 5, 6, 7, 1e400]", "[9**9**9]", "(1, 1e400)", "'HC-SR04' * 10**9",
+        "'~/dev/ttyACM0'", "'~root/tty'", "'$HOME/port'", "'%APPDATA%\\\\p'", "'/dev/../etc/passwd'", "'COM3; rm -rf /'", "'${PATH}'", "'~'",
         "None", "...", "b'bytes'", "1j", "{1: 2}", "{1, 2}", "(1, 2)", "[]", "''", "not x", "x if y else z", "lambda: 0", "await x", "yield", "*a", "**k",
         "a[1:2]", "a.b.c", "a()()", "a < b < c", "a is b", "a in b", "~x", "x @ y", "-x", "+x", "0x10", "0o7", "0b1", "1_000", "1e3", ".5", "5.", "'''t'''", "r'\\n'",
     ]
@@ -76,6 +77,7 @@ TEMPLATES = [
     "d = {H}\nsleep(d)", "p = {H}\nled2 = Led(p)", "n = {H}\nfor i in range(n):\n    led.on()", "b = {H}\nled.set_brightness(b)", "t = {H}\nlcd.line(0, t)",
     "v = {H}\nw = v\nmon.write(w)", "def rec(x):\n    return rec([x])\ny = rec({H})", "def rec2(x):\n    return rec2(x + 0.5)\ny = rec2(1)",
     "def a1(x):\n    return b1(x)\ndef b1(x):\n    return a1(str(x))\nq = a1({H})", "x = " + " + ".join(["1"] * 3000), "x = " + "(" * 200 + "1" + ")" * 200, "x = " + "-" * 500 + "1",
+    "target('~/dev/arduino-uno')", 'target("~root/tty")', "target('$HOME/port')", 'target("%USERPROFILE%/p", upload=False)', "target('~')\nx = {H}", "target(port='~/x')",
     "x = abs({H})", "x = max({H}, {H})", "x = int({H})", "x = str({H})", "x = h({H})", "a, b, c = 1, {H}", "mon.write(value={H})", "x = y = {H}",
 ]
 PRELUDE = ("from Reduino.Actuators import Led, RGBLed, Servo, DCMotor, Buzzer\nfrom Reduino.Communication import SerialMonitor\nfrom Reduino.Displays import LCD\n"
@@ -113,6 +115,38 @@ def _audit(event, args):
         except Exception:
             pass
     _state["events"].append((event, repr(args)[:120]))
+
+
+class _SpyEnv(dict):
+    """os.environ stand-in while one script is transpiled: every look-up is a read of the host environment (HOME, USER, PATH, ...)."""
+
+    def __init__(self, real):
+        super().__init__(real)
+        self.reads = []
+
+    def __getitem__(self, k):
+        self.reads.append(str(k))
+        return super().__getitem__(k)
+
+    def get(self, k, d=None):
+        self.reads.append(str(k))
+        return super().get(k, d)
+
+    def __contains__(self, k):
+        self.reads.append(str(k))
+        return super().__contains__(k)
+
+    def __iter__(self):
+        self.reads.append("*")
+        return super().__iter__()
+
+    def items(self):
+        self.reads.append("*")
+        return super().items()
+
+    def keys(self):
+        self.reads.append("*")
+        return super().keys()
 
 
 def module_fingerprint():
@@ -171,12 +205,19 @@ def run_case(text, canary):
     before = module_fingerprint()
     _state["events"] = []
     res = {"status": "ok", "detail": ""}
+    real_env, real_cwd = os.environ, os.getcwd
+    spy = _SpyEnv(real_env)
     try:
         _state["armed"] = True
+        os.environ = spy
+        os.getcwd = lambda: (spy.reads.append("getcwd()"), real_cwd())[1]
         try:
             emit(P.parse(text))
         finally:
             _state["armed"] = False
+            os.environ, os.getcwd = real_env, real_cwd
+            for key in spy.reads:
+                _state["events"].append(("environment-read", key))
     except ValueError as e:
         res = {"status": "ValueError", "detail": str(e)[:100]}
     except SyntaxError as e:
